@@ -42,6 +42,10 @@ def run(tier):
     for a in (["epidemic"] if quick else algos):
         plans.append(dict(name="samets", fam=fams["samets"], algo=a, budget=3, steps=4 if quick else 5, cap=120 if quick else None, mc=not quick))
         plans.append(dict(name="clockless", fam=fams["clockless"], algo=a, budget=3, steps=4 if quick else 5, cap=120 if quick else None, mc=not quick))
+    # the sensor-mule wrapper (around epidemic routing): sensor nodes get a bundle by direct delivery only, everybody else as usual
+    mulefam = dict(peers=["p1", "s1", "s2"], enabled=BASIC + ["Restart"],
+                   cat={"m1": attr("app", "far"), "m2": attr("app", "s1"), "m3": attr("s2", "far", prev="s2")})
+    plans.append(dict(name="mule", fam=mulefam, algo="mule", budget=3, steps=4 if quick else 5, sim=(20, 10) if quick else (600, 16), cap=100 if quick else None, mc=not quick))
     plans.append(dict(name="race", fam=fams["race"], algo="epidemic", budget=3, steps=2, sim=(400, 6) if quick else (6000, 6), cap=300 if quick else 5000, mc=False,
                       prefer=lambda h: [st["act"] for st in h].count("Race")))
     total, st = run_families(chk, "C05", plans, tier)
